@@ -75,6 +75,8 @@ class Ctx:
         self.assumed = []
         self.scoped = 0
         self.imprecise = None
+        self.births = 0      # creation serial of heap objects (dynamic frame check of loops)
+        self.writes = []     # heap objects changed in place, in order
 
     def start_sym(self, timeout_ms=None):
         self.mode = "sym"
